@@ -33,7 +33,7 @@ class Model:
         self.ver = 0
 
     def gapkey(self, g):
-        lo = self.ks[g - 1] if g > 0 else 0
+        lo = self.ks[g - 1] if g > 0 else -TOP   # the key domain is symmetric about 0, so that the falsy key 0 is the first key of every history
         hi = self.ks[g] if g < len(self.ks) else TOP
         k = (lo + hi) // 2
         assert lo < k < hi
